@@ -467,27 +467,35 @@ impl Fixture {
                 return Err(format!("git for-each-ref lists {name} twice"));
             }
         }
-        // for-each-ref omits dangling/cyclic symbolic refs and HEAD: ask directly for those the model knows to be symbolic, and HEAD.
+        // for-each-ref resolves %(symref) recursively and omits dangling/cyclic symbolic refs: ask `symbolic-ref --no-recurse` for the names
+        // the model knows to be symbolic unless for-each-ref's answer is already the immediate target (one hop to a direct ref).
         for (n, v) in expect {
             let name = NAMES[*n as usize];
-            if let Val::Sym(_) = v {
+            if *n == HEAD {
+                let s = git_try(dir, &self.objects_dir, &["symbolic-ref", "-q", "--no-recurse", "HEAD"]);
+                if s.ok {
+                    view.insert("HEAD".into(), format!("->{}", s.text()));
+                } else {
+                    let o = git_try(dir, &self.objects_dir, &["rev-parse", "--verify", "-q", "HEAD"]);
+                    if o.ok {
+                        let id = o.text();
+                        let val = match ObjectId::from_hex(id.as_bytes()).ok().and_then(|i| self.id_index(&i)) {
+                            Some(k) => format!("id{k}"),
+                            None => format!("unknown-id:{id}"),
+                        };
+                        view.insert("HEAD".into(), val);
+                    }
+                }
+            } else if let Val::Sym(t) = v {
+                let one_hop_to_direct = matches!(expect.get(t), Some(Val::Id(_)));
+                if one_hop_to_direct && view.contains_key(name) {
+                    continue;
+                }
                 let o = git_try(dir, &self.objects_dir, &["symbolic-ref", "-q", "--no-recurse", name]);
                 if o.ok {
                     view.insert(name.to_string(), format!("->{}", o.text()));
                 } else {
                     view.remove(name);
-                }
-            } else if *n == HEAD {
-                let o = git_try(dir, &self.objects_dir, &["rev-parse", "--verify", "-q", "HEAD"]);
-                if o.ok {
-                    let id = o.text();
-                    let val = match ObjectId::from_hex(id.as_bytes()).ok().and_then(|i| self.id_index(&i)) {
-                        Some(k) => format!("id{k}"),
-                        None => format!("unknown-id:{id}"),
-                    };
-                    // a symbolic HEAD would also resolve; make sure it is detached
-                    let s = git_try(dir, &self.objects_dir, &["symbolic-ref", "-q", "--no-recurse", "HEAD"]);
-                    view.insert("HEAD".into(), if s.ok { format!("->{}", s.text()) } else { val });
                 }
             }
         }
